@@ -673,6 +673,22 @@ pub fn x_all(rep: &mut Report, mode: Mode, tier: Tier) {
         }
     });
     rep.absorb(t);
+    // 2b. an escape next to *every* other escape: three high and two low surrogate escapes (and
+    // an ordinary one), each followed and preceded by all 65 536 code units - the classification
+    // of the second escape, whatever it is, while a surrogate is pending
+    let units: Vec<u32> = (0..0x10000u32 / 0x100).collect();
+    let t = explore::par_tally(units, |hi8, t| {
+        for lo8 in 0..0x100u32 {
+            let x = (hi8 << 8) | lo8;
+            for fixed in [0xD800u32, 0xD83D, 0xDBFF, 0xDC00, 0xDFFF, 0x0041] {
+                let text = format!("\"\\u{fixed:04X}\\u{x:04x}\"");
+                x_case(&text, mode, t);
+                let text = format!("\"\\u{x:04X}\\u{fixed:04x}z\"");
+                x_case(&text, mode, t);
+            }
+        }
+    });
+    rep.absorb(t);
     // 3. all 1 112 064 scalar values as a raw character
     let planes: Vec<u32> = (0..0x110000u32 / 0x400).collect();
     let t = explore::par_tally(planes, |p, t| {
@@ -695,7 +711,7 @@ pub fn x_all(rep: &mut Report, mode: Mode, tier: Tier) {
         x_case(&text, mode, &mut t);
     }
     rep.absorb(t);
-    rep.bounds["X-all"] = json!({"code_units": 65536, "hex_cases": 2, "surrogate_pairs": 1048576, "raw_scalars": 1112064, "backslash_ascii": 128, "complete": true});
+    rep.bounds["X-all"] = json!({"code_units": 65536, "hex_cases": 2, "surrogate_pairs": 1048576, "escape_next_to_every_escape": 6 * 2 * 65536, "raw_scalars": 1112064, "backslash_ascii": 128, "complete": true});
 }
 
 fn x_case(text: &str, mode: Mode, t: &mut Tally) {
